@@ -116,17 +116,20 @@ Fixpoint dumps_records (i : Z) (d : list rjson) : M unit :=
   end.
 
 (* handle kinds: 0 = path of an existing file, 1 = path of a new file in an existing directory,
-   2 = an already open file-like object, 3 = path inside a missing directory, 4 = None (dump_records only) *)
-Definition is_path (hk : Z) : bool := (hk =? 0) || (hk =? 1) || (hk =? 3).
+   2 = an already open file-like object, 3 = path inside a missing directory, 4 = None (dump_records only),
+   5 = path of an existing file on a device where open succeeds (and truncates) but handle.write raises
+       OSError (no space left): the OS-level failure AFTER truncation, which the property does not speak about *)
+Definition is_path (hk : Z) : bool := (hk =? 0) || (hk =? 1) || (hk =? 3) || (hk =? 5).
 
 Definition open_w (hk : Z) : M unit := fun w =>
   if hk =? 3 then (w, Err E_Other)
   else (mkW CEmpty (w_log w) (w_trace w ++ [mkEv EV_OPEN 0 0 (cstate (w_file w))]), Ok tt).
-Definition write_text (d : list rjson) : M unit := fun w =>
-  (mkW (CNew d) (w_log w) (w_trace w ++ [mkEv EV_WRITE 0 0 (cstate (w_file w))]), Ok tt).
+Definition write_text (hk : Z) (d : list rjson) : M unit := fun w =>
+  if hk =? 5 then (mkW (w_file w) (w_log w) (w_trace w ++ [mkEv EV_WRITE 0 0 (cstate (w_file w))]), Err E_Other)
+  else (mkW (CNew d) (w_log w) (w_trace w ++ [mkEv EV_WRITE 0 0 (cstate (w_file w))]), Ok tt).
 Definition open_and_write (hk : Z) (d : list rjson) : M unit :=
   doM _ <- (if is_path hk then open_w hk else ret tt);
-  write_text d.
+  write_text hk d.
 
 (* AntismashResults.write_to_file: converted = json.dumps(self.to_json()) inside try/except TypeError,
    then open, then write.  tl = what json.dumps meets in self.timings_by_record (coded like ms_late) *)
@@ -194,19 +197,34 @@ Definition expected_data (records : list rspec) (results : list (list mspec)) : 
 
 (* ====================================================================== part 2: the output directory *)
 
+(* a normalised absolute path (what os.path.abspath returns), as far as the comparison in _ignore_patterns
+   can tell paths apart: p_dir = the directory the path lies in (0 = the output directory itself,
+   1 = the parent of the output directory, 2 = a sub-directory of the output directory, anything else = some
+   other directory), p_base = its base name (an identifier: equal numbers = equal names) *)
+Record apath := mkP { p_dir : Z; p_base : Z }.
+Definition apath_eqb (a b : apath) : bool := (p_dir a =? p_dir b) && (p_base a =? p_base b).
+
+(* what the code reads besides the directory: config.logfile ("" by default: lg_given = false; otherwise
+   lg_path = its absolute normalised form) and the current working directory *)
+Record env := mkEnv { lg_given : bool; lg_path : apath; cwd : apath }.
+(* os.path.abspath(config.logfile); os.path.abspath("") is the current directory *)
+Definition abspath_logfile (v : env) : apath := if lg_given v then lg_path v else cwd v.
+
 (* one directory entry, as the code can tell them apart:
+   en_name      base name of the entry (identifier, see apath)
    en_visible   matched by glob "*" (name does not start with a dot)
    en_input     the path ends with "/input"
    en_isdir     os.path.isdir
-   en_islog     abspath equals abspath(config.logfile)
    en_region    matched by glob "*.region???.gbk" *)
-Record entry := mkE { en_id : Z; en_visible : bool; en_input : bool; en_isdir : bool; en_islog : bool;
+Record entry := mkE { en_id : Z; en_name : Z; en_visible : bool; en_input : bool; en_isdir : bool;
                       en_region : bool }.
+(* os.path.abspath(entry) for entry = os.path.join(name, base) as glob yields it *)
+Definition entry_path (e : entry) : apath := mkP 0 (en_name e).
 
 (* _ignore_patterns: True = the entry counts as foreign content *)
-Definition ignore_patterns (e : entry) : bool :=
+Definition ignore_patterns (v : env) (e : entry) : bool :=
   if en_input e && en_isdir e then false
-  else if en_islog e then false
+  else if apath_eqb (entry_path e) (abspath_logfile v) then false
   else true.
 
 (* glob.glob(os.path.join(name, pattern)): nothing matches when the directory name itself contains
@@ -227,36 +245,138 @@ Fixpoint remove_all (targets : list entry) (entries : list entry) : res unit * l
 
 (* kind: 0 = the path does not exist, 1 = a directory, anything else = exists but is not a directory.
    reuse = input_file.endswith(".json").  Result: outcome, kind afterwards, listing afterwards *)
-Definition prepare_output_directory (kind : Z) (reuse dmeta : bool) (entries : list entry)
+Definition prepare_output_directory (v : env) (kind : Z) (reuse dmeta : bool) (entries : list entry)
   : res unit * Z * list entry :=
   if kind =? 0 then (Ok tt, 1, [])                                      (* os.mkdir(name) *)
   else if negb (kind =? 1) then (Err E_Input, kind, entries)
-  else if negb reuse && negb (match filter ignore_patterns (glob_all dmeta entries) with [] => true | _ => false end)
+  else if negb reuse && negb (match filter (ignore_patterns v) (glob_all dmeta entries) with [] => true | _ => false end)
   then (Err E_Input, kind, entries)
   else let '(r, es) := remove_all (glob_region dmeta entries) entries in (r, kind, es).
 
-(* the property: an entry is foreign unless it is the input directory or the log file *)
-Definition foreign (e : entry) : bool := negb ((en_input e && en_isdir e) || en_islog e).
+(* the property: an entry is foreign unless it is the input directory or the log file, i.e. the very path
+   given with --logfile (no log file was asked for when lg_given is false) *)
+Definition is_logfile (v : env) (e : entry) : bool := lg_given v && apath_eqb (entry_path e) (lg_path v).
+Definition foreign (v : env) (e : entry) : bool := negb ((en_input e && en_isdir e) || is_logfile v e).
+(* the current directory is itself an entry of the output directory while no log file was asked for *)
+Definition cwd_is_entry (v : env) (entries : list entry) : bool :=
+  negb (lg_given v) && existsb (fun e => apath_eqb (entry_path e) (cwd v)) entries.
 (* finding classes of inputs on which the code does not refuse although the property asks for it:
-   1 = a foreign entry is hidden from glob "*" (dot file), 2 = the directory name is itself a glob pattern *)
-Definition dir_guard (dmeta : bool) (entries : list entry) : bool :=
-  negb dmeta && forallb en_visible entries.
-Definition dir_finding_class (dmeta : bool) (entries : list entry) : Z :=
-  if dmeta then 2 else if forallb en_visible entries then 0 else 1.
+   1 = a foreign entry is hidden from glob "*" (dot file), 2 = the directory name is itself a glob pattern,
+   3 = with the default empty logfile the current directory, when it is an entry, is taken for the log file *)
+Definition dir_guard (v : env) (dmeta : bool) (entries : list entry) : bool :=
+  negb dmeta && forallb en_visible entries && negb (cwd_is_entry v entries).
+Definition dir_finding_class (v : env) (dmeta : bool) (entries : list entry) : Z :=
+  if dmeta then 2 else if negb (forallb en_visible entries) then 1
+  else if cwd_is_entry v entries then 3 else 0.
 
 Definition ids (l : list entry) : list Z := map en_id l.
 Definition zlist_eqb (a b : list Z) : bool := list_eqb Z.eqb a b.
 Definition is_err {A} (r : res A) : bool := match r with Err _ => true | Ok _ => false end.
 
 (* spec on an observed outcome (result is-error flag, kind after, ids after) *)
-Definition dir_spec_ok (kind : Z) (reuse : bool) (entries : list entry) (err : bool) (kind' : Z) (after : list Z) : bool :=
+Definition dir_spec_ok (v : env) (kind : Z) (reuse : bool) (entries : list entry) (err : bool) (kind' : Z)
+  (after : list Z) : bool :=
   if negb (kind =? 1) then true
-  else if negb reuse && existsb foreign entries then err && (kind' =? 1) && zlist_eqb after (ids entries)
+  else if negb reuse && existsb (foreign v) entries then err && (kind' =? 1) && zlist_eqb after (ids entries)
   else
     (* accepted (reuse mode, or nothing foreign): only region GenBank entries may disappear, nothing may be
        added or changed *)
     (kind' =? 1) && forallb (fun e => (en_region e && en_visible e) || existsb (Z.eqb (en_id e)) after) entries
     && forallb (fun x => existsb (fun e => en_id e =? x) entries) after.
+
+(* ====================================================================== part 3: _run_antismash *)
+
+(* the order of main._run_antismash (after the option handling): check_prerequisites, verify_options,
+   read_data, prepare_output_directory, pre_process_sequences, per record run_detection / get_regions /
+   analyse_record, results.write_to_file(json), annotate_records, write_outputs, write_profiling_results.
+   Every stage other than prepare_output_directory and write_to_file is a black box that happens (event) and
+   may raise (fault code); events carry the state of the JSON target like those of part 1.
+   Stage event codes: 20 check_prerequisites, 21 verify_options, 22 read_data, 23 prepare_output_directory,
+   24 pre_process_sequences, 25 run_detection (record i), 26 analyse_record (record i), 28 annotate_records,
+   29 write_outputs, 30 write_profiling_results *)
+Definition ST_PREPARE := 23.
+Definition ST_ANNOTATE := 28.
+
+(* one record of the run: record.skip, fault of run_detection, record.get_regions() non-empty, fault of
+   analyse_record *)
+Record rplan := mkRP { rp_skip : bool; rp_fdet : Z; rp_regions : bool; rp_fana : Z }.
+(* pp_verify = verify_options returns True; pp_profile = options.profile *)
+Record pplan := mkPP { pp_prereq : Z; pp_verify : bool; pp_read : Z; pp_pre : Z; pp_recs : list rplan;
+                       pp_annotate : Z; pp_outputs : Z; pp_profile : bool }.
+
+(* for record, module_results in zip(results.records, results.results): ... *)
+Fixpoint run_records (i : Z) (rs : list rplan) (results : list (list mspec)) {struct rs} : M unit :=
+  match rs, results with
+  | r :: rs', _ :: results' =>
+    if rp_skip r then run_records (i + 1) rs' results'                      (* if record.skip: continue *)
+    else
+      doM _ <- hook 25 i 0 (rp_fdet r);
+      if negb (rp_regions r) then run_records (i + 1) rs' results'         (* nothing found: continue *)
+      else doM _ <- hook 26 i 0 (rp_fana r); run_records (i + 1) rs' results'
+  | _, _ => ret tt
+  end.
+
+(* up to read_data; false = verify_options failed (return 1) *)
+Definition before_prepare (pl : pplan) : M bool :=
+  doM _ <- hook 20 0 0 (pp_prereq pl);
+  doM _ <- emit 21 0 0;
+  if negb (pp_verify pl) then ret false
+  else doM _ <- hook 22 0 0 (pp_read pl); ret true.
+
+(* pre_process_sequences and the detection / analysis loop *)
+Definition analysis_phase (pl : pplan) (results : list (list mspec)) : M unit :=
+  doM _ <- hook 24 0 0 (pp_pre pl);
+  run_records 0 (pp_recs pl) results.
+(* what follows the JSON: annotate_records, write_outputs, profiling results, return 0 *)
+Definition output_phase (pl : pplan) : M Z :=
+  doM _ <- hook ST_ANNOTATE 0 0 (pp_annotate pl);
+  doM _ <- hook 29 0 0 (pp_outputs pl);
+  doM _ <- (if pp_profile pl then emit 30 0 0 else ret tt);
+  ret 0.
+(* everything after prepare_output_directory; the timings were cleared after read_data and hold plain
+   numbers only (tl = 0) *)
+Definition after_prepare (pl : pplan) (records : list rspec) (results : list (list mspec)) (hk : Z) : M Z :=
+  doM _ <- analysis_phase pl results;
+  doM _ <- write_to_file records results 0 hk;
+  output_phase pl.
+
+(* result: world (JSON target, log, trace), return code or exception, kind and listing of the output
+   directory afterwards (the JSON target itself is tracked by the world, not by the listing) *)
+Definition run_antismash (pl : pplan) (v : env) (kind : Z) (reuse dmeta : bool) (entries : list entry)
+  (records : list rspec) (results : list (list mspec)) (hk : Z) (w : world)
+  : world * res Z * Z * list entry :=
+  match before_prepare pl w with
+  | (w1, Err k) => (w1, Err k, kind, entries)
+  | (w1, Ok false) => (w1, Ok 1, kind, entries)
+  | (w1, Ok true) =>
+    let w2 := fst (emit ST_PREPARE 0 0 w1) in
+    match prepare_output_directory v kind reuse dmeta entries with
+    | (Err k, kind', es) => (w2, Err k, kind', es)
+    | (Ok _, kind', es) =>
+      let '(w3, r) := after_prepare pl records results hk w2 in (w3, r, kind', es)
+    end
+  end.
+
+(* the property on an observed outcome of the pipeline: ok0 = returned 0, kind' / after = the directory
+   afterwards, state' = state of the JSON target afterwards, evs = (code, state of the JSON target) of the
+   observed events.
+   - fresh run on an existing directory with foreign content: nothing but the stages up to
+     prepare_output_directory happens, the run does not succeed, directory and JSON target are untouched
+   - every conversion sees the JSON target untouched; a failing conversion leaves it untouched, is reported,
+     and neither annotate_records nor write_outputs run
+   - annotate_records / write_outputs / profiling only ever happen after the new JSON is in place *)
+Definition pipeline_spec_ok (v : env) (kind : Z) (reuse : bool) (entries : list entry)
+  (records : list rspec) (results : list (list mspec)) (hk : Z)
+  (ok0 : bool) (kind' : Z) (after : list Z) (state' : Z) (evs : list (Z * Z)) : bool :=
+  let s0 := cstate (initial_content hk) in
+  forallb (fun e => negb (fst e <=? 7) || (snd e =? s0)) evs
+  && forallb (fun e => negb (ST_ANNOTATE <=? fst e) || (snd e =? 3)) evs
+  && (if conversion_fails records results 0
+      then negb ok0 && (state' =? s0) && forallb (fun e => fst e <? ST_ANNOTATE) evs else true)
+  && (if (kind =? 1) && negb reuse && existsb (foreign v) entries
+      then negb ok0 && (kind' =? 1) && zlist_eqb after (ids entries) && (state' =? s0)
+           && forallb (fun e => (20 <=? fst e) && (fst e <=? ST_PREPARE)) evs
+      else true).
 
 (* ====================================================================== encoding *)
 Definition dM : dec mspec := fun l =>
@@ -265,12 +385,14 @@ Definition dR : dec rspec := fun l =>
   match l with a :: b :: c :: d :: e :: r => Some (mkR a b c d (negb (e =? 0)), r) | _ => None end.
 Definition dE (id : Z) : dec entry := fun l =>
   match l with a :: b :: c :: d :: e :: r =>
-    Some (mkE id (negb (a =? 0)) (negb (b =? 0)) (negb (c =? 0)) (negb (d =? 0)) (negb (e =? 0)), r)
+    Some (mkE id a (negb (b =? 0)) (negb (c =? 0)) (negb (d =? 0)) (negb (e =? 0)), r)
   | _ => None end.
+Definition dEnv : dec env := fun l =>
+  match l with g :: a :: b :: c :: d :: r => Some (mkEnv (negb (g =? 0)) (mkP a b) (mkP c d), r) | _ => None end.
 Fixpoint number_entries (i : Z) (l : list entry) : list entry :=
   match l with
   | [] => []
-  | e :: r => mkE i (en_visible e) (en_input e) (en_isdir e) (en_islog e) (en_region e) :: number_entries (i + 1) r
+  | e :: r => mkE i (en_name e) (en_visible e) (en_input e) (en_isdir e) (en_region e) :: number_entries (i + 1) r
   end.
 
 Definition eMJret (m : mjson) : list Z := [mj_key m; mj_val m; mj_late m].
@@ -286,6 +408,22 @@ Definition eOutcome {A} (e : A -> list Z) (wrapped : bool) (out : world * res A)
   let '(w, r) := out in
   eRes e r ++ eBool wrapped ++ eContent (w_file w) ++ [w_log w] ++ eList eEvent (conv_events (w_trace w)).
 
+Definition dRP : dec rplan := fun l =>
+  match l with a :: b :: c :: d :: r => Some (mkRP (negb (a =? 0)) b (negb (c =? 0)) d, r) | _ => None end.
+Definition dPP : dec pplan := fun l =>
+  match l with a :: b :: c :: d :: e :: f :: g :: r =>
+    match dList dRP r with
+    | Some (rs, r') => Some (mkPP a (negb (b =? 0)) c d rs e f (negb (g =? 0)), r')
+    | None => None end
+  | _ => None end.
+Definition pipeline_events (t : list event) : list event :=
+  filter (fun e => (e_code e <=? 7) || (20 <=? e_code e)) t.
+(* pipeline input: plan, environment, kind, reuse, dmeta, entries, handle kind, records, results *)
+Definition dPipeInput :=
+  dPair (dPair (dPair (dPair (dPair (dPair (dPair (dPair dPP dEnv) dZ) dBool) dBool) (dList (dE 0))) dZ)
+               (dList dR)) (dList (dList dM)).
+Definition dEvPair : dec (Z * Z) := dPair dZ dZ.
+
 Definition dWriteInput : dec (Z * Z * list rspec * list (list mspec)) :=
   dPair (dPair (dPair dZ dZ) (dList dR)) (dList (dList dM)).
 
@@ -296,6 +434,7 @@ Definition write_spec_ok (fails : bool) (hk : Z) (err : bool) (state' : Z) (ev_s
   forallb (Z.eqb s0) ev_states &&
   (if fails then err && (state' =? s0)
    else if hk =? 3 then err && (state' =? s0)
+   else if hk =? 5 then err                            (* an I/O failure: reported; the property asks no more *)
    else negb err && ((state' =? 3) || (hk =? 4))).
 
 Definition run_C20 (fn : Z) (l : list Z) : list Z :=
@@ -309,11 +448,25 @@ Definition run_C20 (fn : Z) (l : list Z) : list Z :=
          | Some (hk, _, records, results, []) =>
            eOutcome (eData eMJret) false (dump_records records results hk (initial_world hk))
          | _ => bad_input end
-  | 3 => match dPair (dPair (dPair dZ dBool) dBool) (dList (dE 0)) l with
-         | Some (kind, reuse, dmeta, es, []) =>
+  | 3 => match dPair (dPair (dPair (dPair dEnv dZ) dBool) dBool) (dList (dE 0)) l with
+         | Some (v, kind, reuse, dmeta, es, []) =>
            let entries := number_entries 0 es in
-           let '(r, kind', after) := prepare_output_directory kind reuse dmeta entries in
+           let '(r, kind', after) := prepare_output_directory v kind reuse dmeta entries in
            eRes (fun _ : unit => []) r ++ [kind'] ++ eList (fun x => [x]) (ids after)
+         | _ => bad_input end
+  | 4 => match dPipeInput l with
+         | Some (pl, v, kind, reuse, dmeta, es, hk, records, results, []) =>
+           let entries := number_entries 0 es in
+           let '(w, r, kind', after) :=
+             run_antismash pl v kind reuse dmeta entries records results hk (initial_world hk) in
+           eRes (fun rc : Z => [rc]) r ++ [kind'] ++ eList (fun x => [x]) (ids after)
+           ++ [cstate (w_file w); w_log w] ++ eList eEvent (pipeline_events (w_trace w))
+         | _ => bad_input end
+  | 14 => match dPair dPipeInput (dPair (dPair (dPair (dPair dBool dZ) (dList dZ)) dZ) (dList dEvPair)) l with
+         | Some (pl, v, kind, reuse, dmeta, es, hk, records, results, (ok0, kind', after, state', evs), []) =>
+           let entries := number_entries 0 es in
+           eBool (pipeline_spec_ok v kind reuse entries records results hk ok0 kind' after state' evs)
+           ++ eBool (dir_guard v dmeta entries) ++ [dir_finding_class v dmeta entries]
          | _ => bad_input end
   (* specifications evaluated on the implementation's output: payload ++ [err; state'] ++ list(states) *)
   | 11 | 12 =>
@@ -323,11 +476,12 @@ Definition run_C20 (fn : Z) (l : list Z) : list Z :=
                         else conversion_fails_dump records results hk in
            eBool (write_spec_ok fails hk err state' states) ++ [1; 0]
          | _ => bad_input end
-  | 13 => match dPair (dPair (dPair (dPair dZ dBool) dBool) (dList (dE 0))) (dPair (dPair dBool dZ) (dList dZ)) l with
-         | Some (kind, reuse, dmeta, es, (err, kind', after), []) =>
+  | 13 => match dPair (dPair (dPair (dPair (dPair dEnv dZ) dBool) dBool) (dList (dE 0)))
+                        (dPair (dPair dBool dZ) (dList dZ)) l with
+         | Some (v, kind, reuse, dmeta, es, (err, kind', after), []) =>
            let entries := number_entries 0 es in
-           eBool (dir_spec_ok kind reuse entries err kind' after)
-           ++ eBool (dir_guard dmeta entries) ++ [dir_finding_class dmeta entries]
+           eBool (dir_spec_ok v kind reuse entries err kind' after)
+           ++ eBool (dir_guard v dmeta entries) ++ [dir_finding_class v dmeta entries]
          | _ => bad_input end
   | _ => bad_input
   end.
